@@ -431,8 +431,19 @@ func (sc *StatsController) DropDbStats(ctx *sql.Context, sch, dbName string, flu
 	sc.mu.Lock()
 	defer sc.mu.Unlock()
 
+	// Database names are case-insensitive: the name in the DROP statement need not be spelled the way the
+	// database was registered. A leftover entry would keep pointing at the dropped database's directory, and
+	// a later storage rotation could recreate that directory.
 	dbFs := sc.dbFs[dbName]
 	delete(sc.dbFs, dbName)
+	for k, fs := range sc.dbFs {
+		if strings.EqualFold(k, dbName) {
+			if dbFs == nil {
+				dbFs = fs
+			}
+			delete(sc.dbFs, k)
+		}
+	}
 	if sc.statsBackingDb == dbFs {
 		// don't wait to see if the thread context is invalidated
 		func() {
